@@ -53,12 +53,43 @@ def grammar(text, **kw):
         return Grammar.from_string(text, **kw)
 
 
+# --- neutral spellings -----------------------------------------------------------
+# With NEUTRAL_RNG set (by the worker, never in a replay) a fifth of the parser
+# constructions spell out some options with their documented default values.  That
+# must not change anything; it exercises the "was the option given?" logic of the
+# constructors next to whatever the check itself varies.
+NEUTRAL_RNG = None
+NEUTRAL_LOG = []
+NEUTRAL_COUNT = [0]
+
+
+def _neutral(kw, is_glr):
+    r = NEUTRAL_RNG
+    if r is None or r.random() >= 0.2:
+        return kw
+    cands = [("ws", "\n\r\t "), ("consume_input", True), ("error_recovery", False), ("force_load_table", False), ("debug", False), ("call_actions_during_tree_build", False), ("in_layout", False)]
+    cands.append(("lexical_disambiguation", False if is_glr else True))
+    if not is_glr:
+        cands += [("return_position", False), ("build_tree", False)]
+    if "table" not in kw:
+        cands += [("tables", LALR), ("prefer_shifts", False if is_glr else True), ("prefer_shifts_over_empty", False if is_glr else True)]
+    add = {k: v for k, v in cands if k not in kw and r.random() < 0.4}
+    if not add:
+        return kw
+    NEUTRAL_COUNT[0] += 1
+    NEUTRAL_LOG.append(("GLRParser" if is_glr else "Parser", sorted(add)))
+    del NEUTRAL_LOG[:-4]
+    return dict(kw, **add)
+
+
 def glr(g, **kw):
+    kw = _neutral(kw, True)
     with quiet():
         return GLRParser(g, **kw)
 
 
 def lr(g, **kw):
+    kw = _neutral(kw, False)
     with quiet():
         return Parser(g, **kw)
 
